@@ -15,6 +15,9 @@ CHECKS = {
     "C13": ("exploration", "runtime monitoring: per batch the generator in the working tree is run on freshly drawn type systems (every struct, map, list and union strategy it supports, optional/nullable fields, complex keys), the output is compiled with go build into a driver linked with the monitors, and the driver feeds the same conforming and mutated inputs, at type and representation level, to the generated prototypes and to bindnode prototypes of the same schema in lock-step: accept/reject, panic, type-level read-out, representation read-out and dag-cbor/dag-json bytes are compared; the C08 view monitor and the C09 conformance monitor run on the generated engine against the reference model as well",
             "Held on the type systems and inputs observed: every generated package compiled, and the two engines agreed on everything compared, apart from one known finding (a tuple struct value with an absent optional before a present one, which has no representation, is improvised differently). Sampling of type systems and inputs.",
             "Trusted: go build as the compile oracle; lib/ref/schema where the engines are judged against the reference and not only each other. Enums, Any and listpairs are outside the generator's feature set.", "DESIGN.md §2 C13"),
+    "C19": ("exploration", "runtime monitoring: differential oracle — an independent reflection walk between Go values and typed abstract values (lib/gobind) is compared with what bindnode exposes: read-out of Wrap(&v) at both levels vs the walk of v; walk of Unwrap(built node) vs what was assembled (type and representation builders); Marshal bytes vs the reference encoding of the representation and the walk of the freshly unmarshalled value (dag-cbor, dag-json; typed-nil bind form); integers outside the Go field's range must be refused by builders and Unmarshal; each case ends with a history of repeated/interleaved Wrap/Prototype/Unwrap/Marshal/Unmarshal calls with explicit and inferred schemas over bindings of this and earlier cases of the same process",
+            "Held on the bindings, values and histories observed (Go types drawn by reflection for random type systems over all documented shapes, a declared library of named types, and inferable types), apart from one known finding (a uint64 member above MaxInt64 inside a kinded union cannot be marshalled). Sampling.",
+            "Trusted: lib/gobind walkers, lib/ref/schema, lib/ref/cbor. Nilable-without-pointer only for struct fields (documented); float32 fields get float32-representable values; dag-json skipped for floats and integers above MaxInt64.", "DESIGN.md §2 C19"),
     "C16": ("exploration", "runtime monitoring: model-based monitor of transform sequences — each FocusedTransform result, callback argument, error outcome, set of blocks written and the graph reloaded from the new root are compared with a reference functional update over the abstract graph; the input tree is re-read after every step; WalkTransforming results compared with the reference selector walk's matches on link-free trees; a probe records the walking transform across a link",
             "Held on the transform sequences observed (existing/new/append/delete targets, through links, with unavailable blocks) apart from one known finding (WalkTransforming inlines linked blocks). Sampling.",
             "Trusted: the reference update in lib/props/c16.go (documented FocusedTransform semantics), lib/ref/sel, lib/ref/cbor.", "DESIGN.md §2 C16"),
@@ -65,7 +68,7 @@ CHECKS = {
             "Trusted: lib/ref/cbor decoder, go-cid for CID syntax; UTF-8 validity and resource limits are outside the oracle.", "DESIGN.md §2 C03"),
 }
 
-NOT_YET = "check not built yet in this phase (see DESIGN.md section 2 for the intended monitor); not claimed"
+NOT_YET = "not claimed"
 
 def main():
     props = [json.loads(l) for l in open(os.path.join(ROOT, "properties.jsonl"))]
